@@ -194,7 +194,14 @@ def dmig_part(run, bulk, np, pd):
             hdr = cells(lines[0])
             got_entries = set()
             colnow = None
-            ok = hdr[0].strip() == "DMIG" and int(hdr[3]) == form and int(hdr[4]) == ti + 1
+            ok = hdr[0].strip() == "DMIG" and int(hdr[4]) == ti + 1
+            form_file = int(hdr[3])
+            if form_file != form:
+                # which form the writer picks is its own choice as long as the matrix is read back (below): entries are then judged
+                # by the rule of the form that IS on the card
+                run.deviation("BulkLists.Form", "wtdmig chose form %d, the spec's rule (plain columns 9, different DOF or not square 2, symmetric 6, else 1) says %d" % (form_file, form), case)
+                nz = {(i + 1, j + 1) for i in range(r) for j in range(c) if M[i][j]}
+                entries = [e for e in nz if form_file != 6 or e[0] >= e[1]]
             for ln in lines[1:]:
                 if ln.startswith("DMIG*"):
                     cc = cells(ln[8:], 16)
@@ -207,8 +214,8 @@ def dmig_part(run, bulk, np, pd):
                     if len(ln) > 8 + 16 * (4 if cplx else 3):
                         ok = False
             if not ok or got_entries != set(tuple(e) for e in entries):
-                run.violation("wtdmig: header form/type or entry positions on the cards differ from the spec (form %d: %s)"
-                              % (form, "lower triangle only" if form == 6 else "all non-zeros"), dict(case, text=txt), {"fn": "wtdmig"})
+                run.violation("wtdmig: header type or entry positions on the cards differ from the spec (form %d: %s)"
+                              % (form_file, "lower triangle only" if form_file == 6 else "all non-zeros"), dict(case, text=txt), {"fn": "wtdmig"})
                 continue
             try:
                 back = bulk.rddmig(io.StringIO(txt))["kmat"]
@@ -216,8 +223,8 @@ def dmig_part(run, bulk, np, pd):
                 run.violation("rddmig: raised %r on wtdmig output" % ex, dict(case, text=txt), {"fn": "rddmig"})
                 continue
             # compare on the DOF actually referenced (rows/cols that are entirely zero are not on the cards)
-            keep_r = [i for i in range(r) if A[i].any() or (form == 6 and A[:, i].any())]
-            keep_c = [j for j in range(c) if A[:, j].any() or (form == 6 and A[j].any())]
+            keep_r = [i for i in range(r) if A[i].any() or (form_file == 6 and A[:, i].any())]
+            keep_c = [j for j in range(c) if A[:, j].any() or (form_file == 6 and A[j].any())]
             exp = A[np.ix_(keep_r, keep_c)]
             try:
                 bv = back.values
